@@ -361,6 +361,19 @@ def run_audit(ctx, au, rule="c04"):
                     else:
                         ctx.ok(rule + ".pair", pkey, "%s is the conjunction of is_empty() over all %d fields; Default derived" % (skip, len(covered)), pfn.loc())
                     continue
+                # a hand-written predicate on an Option / collection field: only the value the default reproduces may be omitted
+                if head in ("core::option::Option", "alloc::vec::Vec", "alloc::string::String", "alloc::collections::btree::map::BTreeMap") and dflt is True:
+                    calls = [short_callee(callee_name(t) or "") for bf in [pfn] + prog.closures_of(pfn) for _, t in bf.body.calls()]
+                    want_call = "is_none" if head == "core::option::Option" else "is_empty"
+                    calls_ = [c for c in calls if c not in ("deref", "as_ref", "as_deref", "borrow")]
+                    if calls_ == [want_call]:
+                        ctx.ok(rule + ".pair", pkey, "%s only tests %s() <-> Default" % (skip, want_call), pfn.loc())
+                    else:
+                        ctx.violation(rule + ".pair", pkey, "%s (calls %s) can be true for a value other than %s, e.g. %s: such a value is left out of the file and loads back as %s, "
+                                      "so the reloaded model differs and a file that carries it does not re-serialise to the same JSON"
+                                      % (skip, calls_, "None" if want_call == "is_none" else "the empty collection", "Some(empty)" if want_call == "is_none" else "?",
+                                         "None" if want_call == "is_none" else "empty"), pfn.loc())
+                    continue
                 # predicate / default function pair with constants
                 pc = au.pred_constant(pfn)
                 if isinstance(dflt, str) and dflt:
